@@ -1387,10 +1387,41 @@ def filtered_sequence(it, e, env, coll):
     from .interp import Env
     ctx = it.ctx
     gen = e.generators[0]
-    if not (isinstance(gen.target, ast.Name) and isinstance(e.elt, ast.Name) and e.elt.id == gen.target.id):
-        raise Unsupported('filtered comprehension over a symbolic collection must select the elements themselves')
+    selects_elements = isinstance(gen.target, ast.Name) and isinstance(e.elt, ast.Name) and e.elt.id == gen.target.id
+    plain_keys = isinstance(coll, (VDict, VKeys)) and getattr(coll, 'view', 'keys') == 'keys'
+    str_list = isinstance(coll, (VList, VSeqIter)) and getattr(coll, 'elem', 'any') == 'str'
+    values_view = isinstance(coll, VKeys) and getattr(coll, 'view', 'keys') == 'values'
+    if not (selects_elements and (plain_keys or str_list or values_view)):
+        return filtered_general(it, e, env, coll)
     k = ctx.fresh(z3.StringSort(), gen.target.id)
+    if isinstance(coll, VKeys) and getattr(coll, 'view', 'keys') == 'values':
+        # [v for v in d.values() if c(v)]: the selected VALUES.  r[i] = d[key_of(i)] with c(r[i]); every value that
+        # satisfies c occurs in r; order and multiplicity unspecified.
+        arr = coll.arr
+        cenv = Env(parent=env)
+        cenv.set(gen.target.id, SAny(arr[k]))
+        ctx.spec_depth += 1
+        try:
+            conds = [pv.as_term_bool(truthy(it.eval(c, cenv))) for c in gen.ifs]
+        finally:
+            ctx.spec_depth -= 1
+        cond = z3.And(*conds) if len(conds) > 1 else conds[0]
+        r = ctx.fresh(pv.PVSeq, 'filtv')
+        ctx.nfresh += 1
+        key_of = z3.Function('key_of!%d' % ctx.nfresh, z3.IntSort(), z3.StringSort())
+        qi = z3.Const('q.fi.3', z3.IntSort())
+        qj = z3.Const('q.fj.3', z3.IntSort())
+        ctx.assume(z3.ForAll([qi], z3.Implies(z3.And(qi >= 0, qi < z3.Length(r)),
+                                              z3.And(arr[key_of(qi)] != pv.PAbsent, r[qi] == arr[key_of(qi)],
+                                                     z3.substitute(cond, (k, key_of(qi)))))))
+        ctx.assume(z3.ForAll([k], z3.Implies(z3.And(arr[k] != pv.PAbsent, cond),
+                                             z3.Exists([qj], z3.And(qj >= 0, qj < z3.Length(r), r[qj] == arr[k])))))
+        ctx.note('filtered comprehension over the values of a symbolic dict encoded by its selection predicate '
+                 '(order and multiplicity unspecified)')
+        return VList(seq=r)
     if isinstance(coll, (VDict, VKeys)):
+        if getattr(coll, 'view', 'keys') == 'items':
+            raise Unsupported('filtered comprehension over dict.items() of a symbolic dict')
         arr = coll.to_arr() if isinstance(coll, VDict) else coll.arr
         dom = lambda x: arr[x] != pv.PAbsent
     elif isinstance(coll, (VList, VSeqIter)) and getattr(coll, 'elem', 'any') == 'str':
@@ -1411,6 +1442,53 @@ def filtered_sequence(it, e, env, coll):
     ctx.note('filtered comprehension over a symbolic collection encoded by its membership predicate '
              '(order and multiplicity unspecified)')
     return VList(seq=r, elem='str')
+
+
+def filtered_general(it, e, env, coll):
+    """[f(x) for x in xs if c(x)] over the keys / values / items of a symbolic dict or over a sequence of symbolic
+    length: a fresh list r with   r[j] = f(x_src(j)), c(x_src(j))   for every position j, and every source element
+    that satisfies c contributes an element.  Order and multiplicity are left unspecified (Python keeps the order of
+    the source: obligations that depend on it cannot be proved from this encoding, they are not falsely discharged)."""
+    from .interp import Env
+    ctx = it.ctx
+    gen = e.generators[0]
+    ctx.nfresh += 1
+    if isinstance(coll, (VDict, VKeys)):
+        arr = coll.to_arr() if isinstance(coll, VDict) else coll.arr
+        view = getattr(coll, 'view', 'keys')
+        idx = ctx.fresh(z3.StringSort(), 'fk')
+        src_of = z3.Function('src_of!%d' % ctx.nfresh, z3.IntSort(), z3.StringSort())
+        dom = lambda x: arr[x] != pv.PAbsent
+        elem = lambda x: SStr(x) if view == 'keys' else (SAny(arr[x]) if view == 'values' else (SStr(x), SAny(arr[x])))
+    elif isinstance(coll, (VList, VSeqIter, SAny, tuple)):
+        typed = isinstance(coll, VSeqIter) or (isinstance(coll, VList) and coll.symbolic)
+        seq = coll.seq if typed else it.seq_term(coll, getattr(e, 'lineno', None))
+        owner = coll if typed else None
+        idx = ctx.fresh(z3.IntSort(), 'fi')
+        src_of = z3.Function('src_of!%d' % ctx.nfresh, z3.IntSort(), z3.IntSort())
+        dom = lambda x: z3.And(x >= 0, x < z3.Length(seq))
+        elem = lambda x: pv.elem_value(owner, seq[x]) if owner is not None else lower(seq[x])
+    else:
+        raise Unsupported('filtered comprehension over %r' % (coll,))
+    cenv = Env(parent=env)
+    it.assign(gen.target, elem(idx), cenv)
+    ctx.spec_depth += 1
+    try:
+        conds = [pv.as_term_bool(truthy(it.eval(c, cenv))) for c in gen.ifs]
+        out = lift(it.eval(e.elt, cenv))
+    finally:
+        ctx.spec_depth -= 1
+    cond = z3.And(*conds) if len(conds) > 1 else (conds[0] if conds else z3.BoolVal(True))
+    r = ctx.fresh(pv.PVSeq, 'filtg')
+    qj = z3.Const('q.gj.3', z3.IntSort())
+    at = lambda t, x: z3.substitute(t, (idx, x))
+    ctx.assume(z3.ForAll([qj], z3.Implies(z3.And(qj >= 0, qj < z3.Length(r)),
+                                          z3.And(dom(src_of(qj)), at(cond, src_of(qj)), r[qj] == at(out, src_of(qj))))))
+    ctx.assume(z3.ForAll([idx], z3.Implies(z3.And(dom(idx), cond),
+                                           z3.Exists([qj], z3.And(qj >= 0, qj < z3.Length(r), r[qj] == out)))))
+    ctx.note('filtered / mapped comprehension over a symbolic collection encoded by its selection predicate '
+             '(order and multiplicity unspecified)')
+    return VList(seq=r)
 
 
 def mapped_sequence(it, e, env, kind, coll):
@@ -1785,6 +1863,13 @@ def b_range(it, args, kwargs):
 
 
 def b_any(it, args, kwargs):
+    v = args[0]
+    if isinstance(v, (VList, VSeqIter)) and getattr(v, 'seq', None) is not None:
+        # a sequence of symbolic length: some element is truthy
+        qi = z3.Const('q.ai.3', z3.IntSort())
+        el = pv.elem_value(v, v.seq[qi])
+        t = truthy(el)
+        return mkbool(z3.Exists([qi], z3.And(qi >= 0, qi < z3.Length(v.seq), pv.as_term_bool(t) if not isinstance(t, bool) else z3.BoolVal(t))))
     items = concrete_items_strict(it, args[0])
     for x in items:
         if it.test(x):
